@@ -1,6 +1,8 @@
-(* C15 — Directory nodes satisfy the map-node contract on any link list (plain / generic link map part;
-   the sharded part is C15_sharded below once Hamt/ReadProofs is built). *)
+(* C15 — Directory nodes satisfy the map-node contract on any link list (plain / generic link map part)
+   and on every sharded directory written by this library. *)
+From UV Require Import Hamt.Build Hamt.Read Hamt.ShardDecode Hamt.Refine Base.Varint.
 From UV Require Import Dir.Plain Dir.PlainProofs.
+Local Open Scope N_scope.
 
 Theorem C15_plain_map_contract : forall ls : list plink,
   let ys := fst (drain (S (length ls)) ls) in
@@ -15,3 +17,16 @@ Theorem C15_plain_map_contract : forall ls : list plink,
                 /\ lookup_native ls k = match lookup_by_string ls k with Ok v => Some v | _ => None end).
 Proof. exact plain_map_contract. Qed.
 Print Assumptions C15_plain_map_contract.
+
+(* sharded directories written by this library: as many pairs as the reported length, every yielded key is found
+   and resolves to the link yielded under it, keys never yielded are not found *)
+Theorem C15_sharded_map_contract : forall size lg, permitted size lg ->
+  forall H : bytes -> bytes, (forall k, wf_bytes (H k) = true) -> (forall k, length (H k) = 8%nat) ->
+  forall entries root sz,
+  Forall (entry_ok H) entries -> NoDup (map e_name entries) ->
+  build_sharded size HashMurmur3 entries = Ok (root, sz) ->
+  fst (shard_length nofault root) = Ok (N.of_nat (length (iterate nofault root)))
+  /\ (forall k v, In (IYield k v) (map snd (iterate nofault root)) -> fst (Read.lookup nofault root (H k) k) = Ok v)
+  /\ (forall k, (forall v, ~ In (IYield k v) (map snd (iterate nofault root))) -> fst (Read.lookup nofault root (H k) k) = Err ENotFound).
+Proof. exact sharded_dir_contract. Qed.
+Print Assumptions C15_sharded_map_contract.
